@@ -308,6 +308,8 @@ def replay_expr_host(payload):
 def host_sources(seed, n_depth3):
     import random as _r
     out = [gx.compose2(slot, kind) for slot in gx.SLOT_ORDER for kind in gx.KIND_ORDER]
+    from . import c04
+    out += c04.field_literal_positions()
     rng = _r.Random(seed)
     for _ in range(n_depth3):
         out.append(gx.compose3(rng.choice(gx.SLOT_ORDER), rng.choice(gx.SLOT_ORDER), rng.choice(gx.KIND_ORDER)))
